@@ -8,8 +8,8 @@ PROP = dict(
                        "rejected_seed_no_request (a seed at the working depth that is out of scope by the implementation's own strings ends Failed/Completed, childless, without request)"]),
     ],
     partial="The URL parsers (net/url, ada, x/net/idna), Go's regexp and http.NewRequest are oracles: per node the model receives ada's protocol/hostname and "
-            "the Host / String() / regex answers the code reads, and decides from them; the normaliser itself is C09. The model follows the code as fixed by 02226a3 (fixes/C05-scope-host-before-string); the code before it is kept as passes_orig with refutation witnesses. The lift to every fetch event of the "
-            "pipeline LTS (C01) is not done: the theorem is about preprocess(), the only place where requests are created.",
+            "the Host / String() / regex answers the code reads, and decides from them; the normaliser itself is C09. The model follows the code as fixed by 02226a3 (fixes/C05-scope-host-before-string); the code before it is kept as passes_orig with refutation witnesses. The preprocess()-level theorem is lifted to "
+            "every execution of the pipeline LTS of C01 (Pipe/PipeScope.v: everything the archiver is about to fetch was accepted).",
     assumptions=["node ids are unique (Go: pointer identity)",
                  "ada's protocol/hostname of a reference equal those of its own href re-parsed (the driver reads them from the href)"],
     level_text="Theorems for all item trees with unique ids x all operator configurations x all oracle answers: a request is attached only to nodes whose URL passed "
